@@ -75,7 +75,7 @@ fn probe(addr: usize, write: bool) -> i32 {
     }
 }
 
-static RELEASES: std::sync::Mutex<Vec<(usize, usize, i64)>> = std::sync::Mutex::new(Vec::new());
+static RELEASES: std::sync::Mutex<Vec<(usize, usize, i64, usize)>> = std::sync::Mutex::new(Vec::new());
 fn release_observer(addr: usize, size: usize) {
     // count non-zero bytes of the region being released; read through process_vm_readv so that a page
     // that is still protected yields an error (-1) instead of a fault inside the allocator
@@ -87,7 +87,21 @@ fn release_observer(addr: usize, size: usize) {
         let r = unsafe { libc::process_vm_readv(libc::getpid(), &local, 1, &remote, 1, 0) };
         if r as usize != size { nz = -1; } else { nz = buf.iter().filter(|x| **x != 0).count() as i64; }
     }
-    if let Ok(mut g) = RELEASES.try_lock() { g.push((addr, size, nz)); }
+    // beyond the size the allocator was told, up to the end of the last data page: the same
+    // allocation (an in-place shrink lowers the reported size only).  The child runs with
+    // M_PERTURB, so malloc hands out memory filled with 0xee and fills freed memory with 0x11:
+    // marker bytes (SECRET / 0x5a, what the harness writes into regions) found there were written
+    // by the container during this allocation's life and are unwiped contents.
+    let mut tail: usize = 0;
+    if size > 0 && (addr + size) % PAGE != 0 {
+        let n = PAGE - ((addr + size) % PAGE);
+        let mut page = vec![0u8; n];
+        let local = libc::iovec { iov_base: page.as_mut_ptr() as *mut _, iov_len: n };
+        let remote = libc::iovec { iov_base: (addr + size) as *mut _, iov_len: n };
+        let r = unsafe { libc::process_vm_readv(libc::getpid(), &local, 1, &remote, 1, 0) };
+        if r as usize == n { tail = page.iter().filter(|x| **x == SECRET || **x == 0x5a).count(); }
+    }
+    if let Ok(mut g) = RELEASES.try_lock() { g.push((addr, size, nz, tail)); }
 }
 
 type SetFn = unsafe extern "C" fn(i32);
@@ -248,7 +262,7 @@ mod hb_clone { use super::*; pub fn rw(p: &Locked<HeapBytes>) -> Option<heapbyte
 
 fn finish(w: &mut std::fs::File) {
     let rel = RELEASES.lock().map(|g| g.clone()).unwrap_or_default();
-    for (_a, s, nz) in rel { let _ = w.write_all(format!("R {} {}\n", s, nz).as_bytes()); }
+    for (_a, s, nz, tail) in rel { let _ = w.write_all(format!("R {} {} {}\n", s, nz, tail).as_bytes()); }
     let _ = w.write_all(format!("F {} {}\n", vmlck_kb() * 1024 / PAGE, mlock_calls()).as_bytes());
 }
 
@@ -262,7 +276,7 @@ run_arr!(run_a1, arr1, 1); run_arr!(run_a16, arr16, 16); run_arr!(run_a64, arr64
 run_arr!(run_a4096, arr4096, 4096); run_arr!(run_a4097, arr4097, 4097); run_arr!(run_a8193, arr8193, 8193);
 
 #[derive(Clone, Debug)]
-pub struct Run { pub obs: Vec<Obs>, pub clone_obs: Vec<Obs>, pub clone_step: Vec<usize>, pub releases: Vec<(usize, i64)>, pub final_vmlck: Option<usize>, pub mlock_calls: i32, pub signal: i32, pub errors: Vec<String> }
+pub struct Run { pub obs: Vec<Obs>, pub clone_obs: Vec<Obs>, pub clone_step: Vec<usize>, pub releases: Vec<(usize, i64)>, pub release_tails: Vec<usize>, pub final_vmlck: Option<usize>, pub mlock_calls: i32, pub signal: i32, pub errors: Vec<String> }
 
 fn parse_obs(f: &[&str]) -> Obs {
     let g = |i: usize| f.get(i).copied().unwrap_or("0");
@@ -276,7 +290,7 @@ pub fn run_sequence(container: usize, len: usize, ops: &[Op], fail_from: i32) ->
     unsafe { libc::pipe(fds.as_mut_ptr()); }
     let pid = unsafe { libc::fork() };
     if pid == 0 {
-        unsafe { libc::close(fds[0]); }
+        unsafe { libc::close(fds[0]); libc::mallopt(-6 /* M_PERTURB */, 0x11); }
         let mut w = unsafe { <std::fs::File as std::os::unix::io::FromRawFd>::from_raw_fd(fds[1]) };
         match container { 0 => run_hb::go(len, ops, &mut w, fail_from), 1 => run_a1::go(1, ops, &mut w, fail_from), 16 => run_a16::go(16, ops, &mut w, fail_from), 64 => run_a64::go(64, ops, &mut w, fail_from),
             4095 => run_a4095::go(4095, ops, &mut w, fail_from), 4096 => run_a4096::go(4096, ops, &mut w, fail_from), 4097 => run_a4097::go(4097, ops, &mut w, fail_from), _ => run_a8193::go(8193, ops, &mut w, fail_from) }
@@ -290,11 +304,11 @@ pub fn run_sequence(container: usize, len: usize, ops: &[Op], fail_from: i32) ->
     let mut st = 0;
     unsafe { libc::waitpid(pid, &mut st, 0); }
     let signal = if libc::WIFSIGNALED(st) { libc::WTERMSIG(st) } else { 0 };
-    let mut run = Run { obs: vec![], clone_obs: vec![], clone_step: vec![], releases: vec![], final_vmlck: None, mlock_calls: -1, signal, errors: vec![] };
+    let mut run = Run { obs: vec![], clone_obs: vec![], clone_step: vec![], releases: vec![], release_tails: vec![], final_vmlck: None, mlock_calls: -1, signal, errors: vec![] };
     for l in text.lines() {
         let f: Vec<&str> = l.split(' ').collect();
         match f[0] { "O" => run.obs.push(parse_obs(&f)), "C" => { run.clone_step.push(run.obs.len().saturating_sub(1)); run.clone_obs.push(parse_obs(&f)); }
-            "R" => run.releases.push((f[1].parse().unwrap_or(0), f[2].parse().unwrap_or(0))),
+            "R" => { run.releases.push((f[1].parse().unwrap_or(0), f[2].parse().unwrap_or(0))); run.release_tails.push(f.get(3).and_then(|x| x.parse().ok()).unwrap_or(0)); }
             "F" => { run.final_vmlck = f[1].parse().ok(); run.mlock_calls = f[2].parse().unwrap_or(-1); }
             "E" => run.errors.push(l[2..].to_string()), _ => {} }
     }
@@ -401,6 +415,9 @@ pub fn run_c15(out: &mut Out, tier: &str, _seed: u64) {
             let rp = json!({"op":"protected.release-history","container":"HeapBytes","len":len,"ops":seq_names(ops)});
             if run.signal != 0 { out.hit("protected.sequence-crashes", format!("signal {} length {}", run.signal, len), rp.clone()); continue; }
             let grew = ops.contains(&Op::Grow); let shrank = ops.contains(&Op::Shrink);
+            for (k, tail) in run.release_tails.iter().enumerate() {
+                if *tail >= 8 { out.hit("protected.released-unwiped.beyond-reported-size", format!("a region released as {} bytes still holds {} bytes of its contents beyond that size, before the guard page (initial length {})", run.releases[k].0, tail, len), rp.clone()); }
+            }
             for (size, nz) in run.releases.iter() {
                 if *nz > 0 { out.hit(&format!("protected.released-unwiped.{}", if grew { "after-grow" } else if shrank { "after-shrink" } else { "plain" }), format!("a region of {} bytes reached the allocator with {} non-zero bytes (initial length {})", size, nz, len), rp.clone()); }
                 if *nz < 0 { out.hit("protected.released-while-protected", format!("a region of {} bytes was released while unreadable", size), rp.clone()); }
@@ -423,7 +440,7 @@ pub fn run_c15(out: &mut Out, tier: &str, _seed: u64) {
     for len in [16usize, PAGE, PAGE + 1] {
         for variant in 0..3 {
             let run = { let mut fds = [0i32; 2]; unsafe { libc::pipe(fds.as_mut_ptr()); } let pid = unsafe { libc::fork() };
-                if pid == 0 { unsafe { libc::close(fds[0]); } let mut w = unsafe { <std::fs::File as std::os::unix::io::FromRawFd>::from_raw_fd(fds[1]) };
+                if pid == 0 { unsafe { libc::close(fds[0]); libc::mallopt(-6 /* M_PERTURB */, 0x11); } let mut w = unsafe { <std::fs::File as std::os::unix::io::FromRawFd>::from_raw_fd(fds[1]) };
                     dryoc::protected::verif_set_release_observer(Some(release_observer));
                     { let mut hb = HeapBytes::default(); hb.resize(len, SECRET); match variant { 0 => {}, 1 => hb.resize(len * 3 + 7, SECRET), _ => hb.resize(len / 2, 0) } drop(hb); }
                     finish(&mut w); let _ = w.flush(); unsafe { libc::_exit(0); } }
